@@ -143,6 +143,23 @@ Theorem C18_faithful_default : forall sig start, let A := mk_default sig start f
 Proof. exact faithful_default_dim. Qed.
 Print Assumptions C18_faithful_default.
 
+(* ---- the default branch of matrix_rep, EVERY dimension (Theory/MatrixBranch.v): the canonical blades of a default
+   algebra are, as index tuples, grade by grade the itertools.combinations of 0 .. d-1, hence the combinations branch
+   (run by the Python for a default basis) and the blades branch (the model's matrix_basis, the subject of the
+   theorems above) return the same list of matrices — any number of generators, any start index >= 0 ---- *)
+From KV Require Import Theory.MatrixBranch.
+Theorem C18_default_blade_indices : forall sig start graded, 0 <= start ->
+  blade_indices (mk_default sig start graded) =
+  [] :: map (fun i => [i]) (seq 0 (length sig))
+     ++ flat_map (fun r => combinations (seq 0 (length sig)) r) (seq 2 (length sig - 1)).
+Proof. exact blade_indices_default. Qed.
+Print Assumptions C18_default_blade_indices.
+Theorem C18_default_branch_all : forall sig start,
+  Forall (fun s => s = 1 \/ s = -1 \/ s = 0) sig -> 0 <= start ->
+  matrix_basis (mk_default sig start false) = matrix_basis_default_branch (mk_default sig start false).
+Proof. exact matrix_basis_default_branch_all. Qed.
+Print Assumptions C18_default_branch_all.
+
 (* ---- source pins: the functions whose hand-written model carries the theorems above are still, textually (after
    ast normalisation), the functions the model was validated against; an edit breaks Bridge/Pins_C18.v ---- *)
 From KV Require Bridge.Pins_C18.
